@@ -145,8 +145,7 @@ def lean_build(targets=None):
 
 
 # driver executables: one per model group, so that a check does not depend on unrelated models
-MODE_GROUP = {"part": "core", "barrier": "core", "deliver": "core", "atomic": "core", "bytes": "core", "flush": "core",
-              "lines": "lines"}
+MODE_GROUP = json.load(open(os.path.join(os.path.dirname(os.path.abspath(__file__)), "mode_groups.json")))
 
 
 def model_exe_name(mode):
@@ -200,7 +199,7 @@ def lean_obligations(pid, tier):
     """Step 1 of every check: build, source audit, axiom audit of the property's theorems."""
     obl = obligations_for(pid)
     theorems, module = obl["theorems"], obl["module"]
-    exes = sorted({model_exe_name(m) for m in obl.get("modes", [])}) or ["ygm_model"]
+    exes = sorted({model_exe_name(m) for m in obl.get("modes", [])})
     ok, log, wall = lean_build([module] + exes)
     info = {"build_ok": ok, "build_wall_s": round(wall, 1), "theorems": theorems,
             "discharged": [], "failed": [], "source_audit": [], "leanchecker": None}
@@ -228,8 +227,24 @@ def lean_obligations(pid, tier):
     return info
 
 
+_EXE_READY = set()
+
+
+def ensure_exe(mode):
+    """build (no-op when fresh) the driver executable that serves `mode`"""
+    name = model_exe_name(mode)
+    if name in _EXE_READY:
+        return
+    ok, log, _ = lean_build([name])
+    if not ok:
+        errs = [l for l in log.split("\n") if l.startswith("error")][:6]
+        raise RuntimeError(f"driver executable {name} does not build: " + " | ".join(errs))
+    _EXE_READY.add(name)
+
+
 def model(mode, lines, timeout=600):
     """run the Lean driver on the given input lines; returns list of output lines"""
+    ensure_exe(mode)
     inp = "\n".join(lines) + "\n"
     r = subprocess.run([model_bin(mode), mode], input=inp, capture_output=True, text=True, timeout=timeout)
     if r.returncode != 0:
